@@ -701,6 +701,43 @@ func judgeC16(c c16Case) (v core.Verdict) {
 			}
 		}
 	}
+	if !c.Dev && !c.RecCache {
+		// the default cache remembers every template, also two whose paths happen to collide under a 32-bit hash
+		// (FNV-1a of "/products/380395.jet" and of "/products/1223110.jet" are equal)
+		spell := func(p string) (string, bool) {
+			for _, e := range c.Exts {
+				if e == "" {
+					return p + ".jet", true
+				}
+				if e == ".jet" {
+					return p, true
+				}
+			}
+			return "", false
+		}
+		if na, ok := spell("/products/380395"); ok {
+			nb, _ := spell("/products/1223110")
+			fl.files["/products/380395.jet"] = c16File{variant: "text", version: 9001}
+			fl.files["/products/1223110.jet"] = c16File{variant: "text", version: 9002}
+			ta, oa := jetrun.Get(s, na)
+			tb, ob := jetrun.Get(s, nb)
+			if !oa.Failed() && !ob.Failed() {
+				v.Label("two-paths-with-equal-32-bit-hashes")
+				for round, nm := range []string{na, nb, na} {
+					trace = trace[:0]
+					t, o := jetrun.Get(s, nm)
+					want := ta
+					if nm == nb {
+						want = tb
+					}
+					if o.Failed() || t != want || len(loaderEvents()) > 0 {
+						v.Failf("%s; then %s and %s were loaded, and lookup %d of %s: err=%v identical=%v loader events %v", hist(len(c.Ops)-1), na, nb, round, nm, o.Err, t == want, loaderEvents())
+						return
+					}
+				}
+			}
+		}
+	}
 	three := false
 	for _, g := range gets {
 		if g >= 3 {
